@@ -121,6 +121,29 @@ theorem mem_ofList_iff (es : List Str) (n : Str) :
     · exact a
     · simp only [a, if_false] at h; split at h <;> simp at h
 
+/-- Pending negations of the final list are decided by the specification as well. -/
+theorem mem_negs_ofList_iff (es : List Str) (n : Str) :
+    n ∈ (RList.ofList es).negs ↔ run 0 es n = -1 := by
+  rw [← st_ofList]
+  have hinv := ofList_inv es
+  unfold st
+  constructor
+  · intro h
+    have : n ∉ (RList.ofList es).items := fun hi => hinv.2.2 n hi h
+    simp [this, h]
+  · intro h
+    by_cases a : n ∈ (RList.ofList es).items
+    · simp [a] at h
+    · simp only [a, if_false] at h
+      by_cases b : n ∈ (RList.ofList es).negs
+      · exact b
+      · simp [b] at h
+
+/-- The specification never leaves `{-1, 0, 1}`. -/
+theorem run_range (es : List Str) (n : Str) :
+    run 0 es n = 1 ∨ run 0 es n = -1 ∨ run 0 es n = 0 := by
+  rw [← st_ofList]; exact st_range _ n
+
 theorem foldl_handleNegation_eq (ns : List Str) (l : RList) :
     ns.foldl RList.handleNegation l = (ns.map ('~' :: ·)).foldl RList.appendIfNew l := by
   induction ns generalizing l with
